@@ -77,4 +77,10 @@ run C19 && mut C19 x/pairing/keeper/unresponsive_provider.go '		if len(epochs) !
 run C42 && mut C42 x/rewards/keeper/iprpc.go '		k.addSpecFunds(ctx, fund.Spec, fund.Fund, 1, false)' '		k.addSpecFunds(ctx, fund.Spec, fund.Fund, 1, true)'
 run C42 && mut C42 x/rewards/keeper/iprpc.go '	for i := startID; i < startID+duration; i++ {' '	for i := startID; i <= startID+duration; i++ {'
 run C42 && mut C42 x/rewards/keeper/providers.go '	if !k.IsIprpcSubscription(ctx, subscription) {' '	if false {'
+run C17 && mut C17 x/projects/keeper/creation.go '		if found && devkeyData.ProjectID != project.GetIndex() {
+			return utils.LavaFormatWarning("failed to register key",' '		if false && devkeyData.ProjectID != project.GetIndex() {
+			return utils.LavaFormatWarning("failed to register key",'
+run C17 && mut C17 x/projects/keeper/project.go '		if proj.Snapshot != project.Snapshot {
+			break
+		}' ''
 exit 0
